@@ -888,6 +888,23 @@ def edges(rng, case, idx):
                         viol(['C02', 'C03', 'C01'], 'C02:mass_transfer_of_an_enzyme_moves_another_mass', {'held': held, 'asked': asked, 'arrived_ng': got_U / sa * 1e9})
                 elif exc is None or not isinstance(exc, ValueError):
                     viol(['C03', 'C02'], 'C03:overdraw_by_mass_of_an_enzyme_accepted' if exc is None else f'C03:refusal_not_ValueError:{type(exc).__name__}', {'held': held, 'asked': asked})
+            # (round 17, seeded s-C02-i) picograms with five or ten digits out of a dry enzyme of high specific activity: a mass is
+            # rounded relative to itself, not to so many decimals of a gram
+            M.bucket(case['prop'] + '/edge/E27_picograms_of_an_enzyme_by_mass')
+            pol = S.enzyme('polymerase', rng.choice(['4 U/ng', '2 U/ng', '10 U/ng']))
+            sa_p = R.specific_activity_of(pol)
+            for held, asked in (('100 pg', '1.2345 pg'), ('100 pg', '12.3456 pg'), ('1 ng', '0.0123456789 ng'), ('50 pg', '2.4689 pg'), ('10 pg', '0.98765 pg'), ('1 ng', '123.4567891 pg')):
+                src = C('src', initial_contents=[(pol, held)])
+                res, exc = attempt(lambda: C.transfer(src, C('dst'), asked))
+                want_U = R.parse_quantity(asked)[0] * sa_p
+                if want_U < 1e6 * cf.q:
+                    continue
+                if exc is not None:
+                    viol(['C03', 'C02'], f'C03:feasible_mass_transfer_of_an_enzyme_refused:{type(exc).__name__}', {'held': held, 'asked': asked, 'exc': repr(exc)[:120]})
+                    continue
+                got_U = res[1].contents.get(pol, 0.0)
+                if abs(got_U - want_U) > 1e-6 * want_U + 4 * cf.q:
+                    viol(['C02', 'C03', 'C01'], 'C02:mass_transfer_of_an_enzyme_moves_another_mass:picograms', {'held': held, 'asked': asked, 'arrived_pg': got_U / sa_p * 1e12})
             M.note_nontrivial(case['prop'], ('E27', idx))
         elif fam == 27:
             # ---- E28
